@@ -131,7 +131,10 @@ class Int(numerical.Numerical):
         if self.step is None:
             # prob is in range [0.0, 1.0), use max_value + 1 so that
             # max_value may be sampled.
-            return int(self._sample_numerical_value(prob, self.max_value + 1))
+            value = int(self._sample_numerical_value(prob, self.max_value + 1))
+            # The float computation can reach max_value + 1 for a prob next
+            # to 1.
+            return max(self.min_value, min(value, self.max_value))
         return int(self._sample_with_step(prob))
 
     @property
